@@ -86,6 +86,8 @@ def analyse(text):
                     flags['contains_comprehension'] = True
                 if isinstance(sub, ast.Lambda):
                     flags['contains_lambda'] = True
+                if isinstance(sub, ast.Await):
+                    flags['contains_await'] = True
                 if isinstance(sub, ast.Call) and sub.keywords:
                     flags['contains_keyword_argument'] = True
             for p, child in ch:
@@ -207,6 +209,9 @@ def analyse(text):
                                             'contains_def': any(isinstance(x, (ast.FunctionDef, ast.ClassDef,
                                                                                ast.Lambda))
                                                                 for s_ in seg for x in ast.walk(s_)),
+                                            'contains_await': any(
+                                                isinstance(x, (ast.Await, ast.AsyncFor, ast.AsyncWith))
+                                                for s_ in seg for x in ast.walk(s_)),
                                             'contains_nonlocal_global': any(
                                                 isinstance(x, (ast.Nonlocal, ast.Global))
                                                 for s_ in seg for x in ast.walk(s_))}})
